@@ -164,10 +164,11 @@ def _mono_mul(a: Mono, b: Mono) -> Mono:
 
 
 class Poly:
-    __slots__ = ("t",)
+    __slots__ = ("t", "_h")
 
     def __init__(self, t: Optional[Dict[Mono, Fraction]] = None):
         self.t = t or {}
+        self._h = None
 
     @staticmethod
     def const(c) -> "Poly":
@@ -235,7 +236,9 @@ class Poly:
         return isinstance(o, Poly) and self.t == o.t
 
     def __hash__(self):
-        return hash(frozenset(self.t.items()))
+        if self._h is None:
+            self._h = hash(frozenset(self.t.items()))
+        return self._h
 
     def atoms(self):
         s = set()
@@ -281,27 +284,166 @@ def _exp_atom(arg: "Rat") -> Atom:
 # --------------------------------------------------------------------------
 # rational functions
 # --------------------------------------------------------------------------
-class Rat:
-    __slots__ = ("num", "den")
+_P = (1 << 61) - 1
 
-    def __init__(self, num: Poly, den: Optional[Poly] = None, _raw=False):
-        if den is None:
-            den = Poly.const(1)
-        if den.is_zero():
-            raise Unmodelled("division by a form that is identically zero")
-        if not _raw:
-            num, den = _normalise(num, den)
+
+def _atom_val(i: int) -> int:
+    return (pow(1000003, i + 7, _P) * 7919 + 104729 * (i + 1)) % _P
+
+
+def _poly_fp(p: "Poly") -> int:
+    acc = 0
+    for m, c in p.t.items():
+        v = (c.numerator % _P) * pow(c.denominator % _P, _P - 2, _P) % _P
+        for i, e in m:
+            v = v * pow(_atom_val(i), e, _P) % _P
+        acc = (acc + v) % _P
+    return acc
+
+
+def _split_poly(p: "Poly"):
+    """p == c * monomial * q with q primitive (no monomial content, first coefficient 1)."""
+    common = None
+    for m in p.t:
+        d = dict(m)
+        common = d if common is None else {i: min(e, d[i]) for i, e in common.items() if i in d}
+        if not common:
+            break
+    if common:
+        cm = tuple(sorted(common.items()))
+        p = Poly({tuple((i, e - common.get(i, 0)) for i, e in m if e - common.get(i, 0)): c for m, c in p.t.items()})
+    else:
+        cm = ONE_M
+    lead = p.t[min(p.t)]
+    if lead != 1:
+        p = p.scale(1 / lead)
+    return lead, cm, p
+
+
+def _poly_divexact(n: "Poly", f: "Poly"):
+    """Exact quotient n / f (None when f does not divide n): leading-term reduction under a lexicographic order."""
+    if len(f.t) < 2 or len(n.t) < len(f.t):
+        return None
+    ids = sorted(n.atoms() | f.atoms())
+    pos = {a: k for k, a in enumerate(ids)}
+    if not f.atoms() <= n.atoms():
+        return None
+
+    def vec(m):
+        v = [0] * len(ids)
+        for i, e in m:
+            v[pos[i]] = e
+        return tuple(v)
+
+    fv = {vec(m): c for m, c in f.t.items()}
+    lf = max(fv)
+    cf = fv[lf]
+    rem = {vec(m): c for m, c in n.t.items()}
+    quo = {}
+    steps = 0
+    while rem:
+        steps += 1
+        if steps > 4000:
+            return None
+        ln = max(rem)
+        d = tuple(a - b for a, b in zip(ln, lf))
+        if min(d) < 0:
+            return None
+        c = rem[ln] / cf
+        quo[d] = c
+        for mv, mc in fv.items():
+            k = tuple(a + b for a, b in zip(mv, d))
+            v = rem.get(k, 0) - mc * c
+            if v:
+                rem[k] = v
+            else:
+                rem.pop(k, None)
+    return Poly({tuple((ids[k], e) for k, e in enumerate(v) if e): c for v, c in quo.items()})
+
+
+_FACTOR_EXPAND = {}
+
+
+def _expand_factors(df) -> "Poly":
+    """Product of the denominator factors (cached)."""
+    if not df:
+        return Poly.const(1)
+    key = df
+    r = _FACTOR_EXPAND.get(key)
+    if r is None:
+        r = Poly.const(1)
+        for f, e in df:
+            for _ in range(e):
+                r = r * f
+        if len(_FACTOR_EXPAND) > 4000:
+            _FACTOR_EXPAND.clear()
+        _FACTOR_EXPAND[key] = r
+    return r
+
+
+def _df_key(f: "Poly"):
+    return (len(f.t), hash(f))
+
+
+class Rat:
+    """num / (dm * prod f_i^e_i): numerator expanded, denominator kept factored
+    (dm: monomial, f_i: primitive polynomials with at least two terms)."""
+    __slots__ = ("num", "dm", "df", "_fp", "_den", "_pw")
+
+    def __init__(self, num: Poly, den=None, _raw=False, dm=ONE_M, df=()):
+        if den is not None and not _raw:
+            if isinstance(den, Poly):
+                if den.is_zero():
+                    raise Unmodelled("division by a form that is identically zero")
+                if len(den.t) == 1:
+                    (m, c), = den.t.items()
+                    num, dm, df = num.scale(1 / c), _mono_mul(dm, m), df
+                else:
+                    c, m, q = _split_poly(den)
+                    num = num.scale(1 / c)
+                    dm = _mono_mul(dm, m)
+                    df = _merge_df(df, ((q, 1),))
+        num, dm, df = _normalise(num, dm, df)
         self.num = num
-        self.den = den
+        self.dm = dm
+        self.df = df
+        self._fp = -1
+        self._den = None
+        self._pw = None
+
+    # -- denominator views ---------------------------------------------
+    @property
+    def den(self) -> Poly:
+        if self._den is None:
+            d = _expand_factors(self.df)
+            if self.dm:
+                d = d * Poly({self.dm: Fraction(1)})
+            self._den = d
+        return self._den
+
+    def fp(self):
+        """Modular fingerprint (exact arithmetic mod a prime): equal forms have equal
+        fingerprints, so a mismatch proves inequality; a match is always confirmed exactly."""
+        if self._fp == -1:
+            d = 1
+            for i, e in self.dm:
+                d = d * pow(_atom_val(i), e, _P) % _P
+            for f, e in self.df:
+                d = d * pow(_poly_fp(f), e, _P) % _P
+            if d == 0:
+                self._fp = None
+            else:
+                self._fp = _poly_fp(self.num) * pow(d, _P - 2, _P) % _P
+        return self._fp
 
     # constructors
     @staticmethod
     def const(c) -> "Rat":
-        return Rat(Poly.const(c), Poly.const(1), _raw=True)
+        return Rat(Poly.const(c))
 
     @staticmethod
     def atom(a: Atom) -> "Rat":
-        return Rat(Poly.atom(a), Poly.const(1), _raw=True)
+        return Rat(Poly.atom(a))
 
     @staticmethod
     def sym(name, flags=(), meta=None) -> "Rat":
@@ -311,10 +453,10 @@ class Rat:
         return self.num.is_zero()
 
     def is_const(self):
-        return self.num.is_const() and self.den.is_const()
+        return self.num.is_const() and not self.dm and not self.df
 
     def const_value(self) -> Fraction:
-        return self.num.const_value() / self.den.const_value()
+        return self.num.const_value()
 
     def as_int(self) -> Optional[int]:
         if self.is_const():
@@ -323,16 +465,44 @@ class Rat:
                 return int(v)
         return None
 
+    def _same_den(self, o):
+        return self.dm == o.dm and self.df == o.df
+
     def __add__(self, o):
         o = rat(o)
-        if self.den == o.den:
-            return Rat(self.num + o.num, self.den)
-        return Rat(self.num * o.den + o.num * self.den, self.den * o.den)
+        if self._same_den(o):
+            return Rat(self.num + o.num, dm=self.dm, df=self.df)
+        # least common denominator on the factor level
+        dm = dict(self.dm)
+        for i, e in o.dm:
+            dm[i] = max(dm.get(i, 0), e)
+        sa, sb = dict(self.dm), dict(o.dm)
+        ma = tuple(sorted((i, e - sa.get(i, 0)) for i, e in dm.items() if e - sa.get(i, 0)))
+        mb = tuple(sorted((i, e - sb.get(i, 0)) for i, e in dm.items() if e - sb.get(i, 0)))
+        fa, fb = dict(self.df), dict(o.df)
+        allf = dict(fa)
+        for f, e in fb.items():
+            allf[f] = max(allf.get(f, 0), e)
+        xa = tuple((f, e - fa.get(f, 0)) for f, e in allf.items() if e - fa.get(f, 0))
+        xb = tuple((f, e - fb.get(f, 0)) for f, e in allf.items() if e - fb.get(f, 0))
+        na = self.num
+        if ma:
+            na = na * Poly({ma: Fraction(1)})
+        if xa:
+            na = na * _expand_factors(tuple(sorted(xa, key=lambda fe: _df_key(fe[0]))))
+        nb = o.num
+        if mb:
+            nb = nb * Poly({mb: Fraction(1)})
+        if xb:
+            nb = nb * _expand_factors(tuple(sorted(xb, key=lambda fe: _df_key(fe[0]))))
+        return Rat(na + nb, dm=tuple(sorted(dm.items())), df=tuple(sorted(allf.items(), key=lambda fe: _df_key(fe[0]))))
 
     __radd__ = __add__
 
     def __neg__(self):
-        return Rat(-self.num, self.den, _raw=True)
+        r = Rat.__new__(Rat)
+        r.num, r.dm, r.df, r._fp, r._den, r._pw = -self.num, self.dm, self.df, -1, self._den, None
+        return r
 
     def __sub__(self, o):
         return self + (-rat(o))
@@ -342,14 +512,22 @@ class Rat:
 
     def __mul__(self, o):
         o = rat(o)
-        return Rat(self.num * o.num, self.den * o.den)
+        if not o.dm and not o.df and not self.dm and not self.df:
+            return Rat(self.num * o.num)
+        return Rat(self.num * o.num, dm=_mono_mul(self.dm, o.dm), df=_merge_df(self.df, o.df))
 
     __rmul__ = __mul__
 
     def inv(self):
         if self.num.is_zero():
             raise Unmodelled("division by a form that is identically zero")
-        return Rat(self.den, self.num)
+        if self._pw is not None and not self.dm and not self.df:
+            c, m, q, n = self._pw        # self.num == (c * m * q) ** n, kept as a power of one factor
+            return Rat(Poly.const(1 / (c ** n)), dm=tuple((i, e * n) for i, e in m), df=((q, n),))
+        newnum = _expand_factors(self.df)
+        if self.dm:
+            newnum = newnum * Poly({self.dm: Fraction(1)})
+        return Rat(newnum, self.num)
 
     def __truediv__(self, o):
         return self * rat(o).inv()
@@ -362,6 +540,13 @@ class Rat:
             return Rat.const(1)
         if n < 0:
             return self.inv() ** (-n)
+        if n > 1 and not self.dm and not self.df and len(self.num.t) > 1:
+            r = Rat.const(1)
+            for _ in range(n):
+                r = r * self
+            c, m, q = _split_poly(self.num)
+            r._pw = (c, m, q, n)
+            return r
         r = Rat.const(1)
         b = self
         while n:
@@ -378,33 +563,58 @@ class Rat:
                 o = rat(o)
             except Exception:
                 return False
-        if self.den == o.den:
+        if self._same_den(o):
             return self.num == o.num
-        return self.num * o.den == o.num * self.den
+        a, b = self.fp(), o.fp()
+        if a is not None and b is not None and a != b:
+            return False
+        return (self - o).num.is_zero()
 
     def __hash__(self):
         return 0  # equality is semantic; containers must not rely on hashing
 
     def deps(self):
         s = set()
-        for i in self.num.atoms() | self.den.atoms():
+        for i in self.atom_ids():
             s |= T.get(i).deps
         return s
 
     def atom_ids(self):
-        return self.num.atoms() | self.den.atoms()
+        s = self.num.atoms()
+        for i, _ in self.dm:
+            s.add(i)
+        for f, _ in self.df:
+            s |= f.atoms()
+        return s
 
     def single_atom(self) -> Optional[Atom]:
-        if self.den.is_const() and len(self.num.t) == 1:
+        if not self.dm and not self.df and len(self.num.t) == 1:
             (m, c), = self.num.t.items()
-            if len(m) == 1 and m[0][1] == 1 and c == self.den.const_value():
+            if len(m) == 1 and m[0][1] == 1 and c == 1:
                 return T.get(m[0][0])
         return None
+
+    def den_factors(self):
+        """[(Rat factor, exponent)] of the denominator, monomial atoms first."""
+        out = [(Rat.atom(T.get(i)), e) for i, e in self.dm]
+        out += [(Rat(f), e) for f, e in self.df]
+        return out
 
     def __str__(self):
         return rat_str(self)
 
     __repr__ = __str__
+
+
+def _merge_df(a, b):
+    if not b:
+        return a
+    if not a:
+        return b
+    d = dict(a)
+    for f, e in b:
+        d[f] = d.get(f, 0) + e
+    return tuple(sorted(d.items(), key=lambda fe: _df_key(fe[0])))
 
 
 def rat(x) -> Rat:
@@ -419,43 +629,54 @@ def rat(x) -> Rat:
     raise TypeError("not a numeric form: %r" % (x,))
 
 
-def _normalise(num: Poly, den: Poly):
+def _normalise(num: Poly, dm: Mono, df):
     if num.is_zero():
-        return num, Poly.const(1)
-    # move exp factors of a single-term denominator into the numerator
-    if len(den.t) == 1 and _EXP_IDS:
-        (m, c), = den.t.items()
-        exps = [(i, e) for i, e in m if i in _EXP_IDS]
-        if exps:
-            rest = tuple((i, e) for i, e in m if i not in _EXP_IDS)
-            f = Poly.const(1)
-            for i, e in exps:
+        return num, ONE_M, ()
+    # exp atoms of the monomial denominator go to the numerator as exp(-arg)
+    if dm and _EXP_IDS and any(i in _EXP_IDS for i, _ in dm):
+        f = Poly.const(1)
+        rest = []
+        for i, e in dm:
+            if i in _EXP_IDS:
                 f = f * Poly.atom(_exp_atom(T.get(i).args[0] * Rat.const(-e)))
-            num = num * f
-            den = Poly({rest: c})
-    # cancel the common monomial factor
-    common = None
-    for m in list(num.t) + list(den.t):
-        d = dict(m)
-        if common is None:
-            common = d
-        else:
+            else:
+                rest.append((i, e))
+        num = num * f
+        dm = tuple(rest)
+    # cancel the monomial content shared by the numerator and the monomial denominator
+    if dm:
+        common = dict(dm)
+        for m in num.t:
+            d = dict(m)
             common = {i: min(e, d[i]) for i, e in common.items() if i in d}
-        if not common:
-            break
-    if common:
-        def strip(p):
-            r = {}
-            for m, c in p.t.items():
-                r[tuple((i, e - common.get(i, 0)) for i, e in m if e - common.get(i, 0))] = c
-            return Poly(r)
-        num, den = strip(num), strip(den)
-    # numeric content: make the denominator's first (sorted) coefficient 1
-    lead = den.t[min(den.t)]
-    if lead != 1:
-        inv = 1 / lead
-        num, den = num.scale(inv), den.scale(inv)
-    return num, den
+            if not common:
+                break
+        if common:
+            num = Poly({tuple((i, e - common.get(i, 0)) for i, e in m if e - common.get(i, 0)): c for m, c in num.t.items()})
+            dm = tuple((i, e - common.get(i, 0)) for i, e in dm if e - common.get(i, 0))
+    # cancel a denominator factor that the numerator equals up to a scalar (cheap, common case x/x)
+    if df and len(num.t) > 1:
+        for f, e in df:
+            if len(f.t) == len(num.t):
+                lead = num.t.get(min(f.t))
+                if lead is not None and num.scale(1 / lead) == f:
+                    nd = tuple((g, k - (1 if g is f else 0)) for g, k in df if k - (1 if g is f else 0))
+                    return Poly.const(lead), dm, nd
+    # cancel denominator factors that divide the numerator exactly (small numerators only: cost control)
+    if df and 2 <= len(num.t) <= 48:
+        changed = False
+        nd = []
+        for f, e in df:
+            while e and len(num.t) >= len(f.t):
+                q = _poly_divexact(num, f)
+                if q is None:
+                    break
+                num, e, changed = q, e - 1, True
+            if e:
+                nd.append((f, e))
+        if changed:
+            return _normalise(num, dm, tuple(nd))
+    return num, dm, df
 
 
 # --------------------------------------------------------------------------
@@ -524,12 +745,17 @@ def _log_poly(p: Poly) -> Rat:
     if lead != 1:
         r = r + _log_atom(Rat.const(lead))
         p = p.scale(1 / lead)
-    return r + _log_atom(Rat(p, Poly.const(1), _raw=True))
+    return r + _log_atom(Rat(p))
 
 
 def mk_log(a) -> Rat:
     a = rat(a)
-    return _log_poly(a.num) - _log_poly(a.den)
+    r = _log_poly(a.num)
+    for i, e in a.dm:
+        r = r - _log_poly(Poly.atom(T.get(i))) * Rat.const(e)
+    for f, e in a.df:
+        r = r - _log_poly(f) * Rat.const(e)
+    return r
 
 
 def mk_pow(base, expo) -> Rat:
@@ -630,7 +856,27 @@ def is_nonneg(x) -> bool:
     def poly_nonpos(p: Poly):
         return poly_nonneg(-p)
 
-    return (poly_nonneg(x.num) and poly_nonneg(x.den)) or (poly_nonpos(x.num) and poly_nonpos(x.den))
+    def den_sign():
+        """+1 / -1 if every denominator factor has a syntactically known sign, else 0."""
+        sgn = 1
+        for i, e in x.dm:
+            if e % 2 and "nonneg" not in T.get(i).flags:
+                return 0
+        for f, e in x.df:
+            if e % 2 == 0:
+                continue
+            if poly_nonneg(f):
+                continue
+            if poly_nonpos(f):
+                sgn = -sgn
+                continue
+            return 0
+        return sgn
+
+    ds = den_sign()
+    if ds == 0:
+        return False
+    return poly_nonneg(x.num) if ds > 0 else poly_nonpos(x.num)
 
 
 # --------------------------------------------------------------------------
@@ -689,14 +935,17 @@ def subst(x: Rat, mapping: Dict[int, Rat], _cache=None) -> Rat:
                 term = term * (atom_image(i) ** e)
             acc = acc + term
         if untouched:
-            acc = acc + Rat(Poly(untouched), Poly.const(1), _raw=True)
+            acc = acc + Rat(Poly(untouched))
         return acc
 
     if x.deps().isdisjoint(keys):
         return x
-    n = poly_image(x.num)
-    d = poly_image(x.den)
-    return n / d
+    r = poly_image(x.num)
+    for i, e in x.dm:
+        r = r / (atom_image(i) ** e)
+    for f, e in x.df:
+        r = r / (poly_image(f) ** e)
+    return r
 
 
 def transform(x: Rat, atom_fn: Callable[[Atom], Rat], _cache=None) -> Rat:
@@ -719,7 +968,12 @@ def transform(x: Rat, atom_fn: Callable[[Atom], Rat], _cache=None) -> Rat:
             acc = acc + term
         return acc
 
-    return poly_image(x.num) / poly_image(x.den)
+    r = poly_image(x.num)
+    for i, e in x.dm:
+        r = r / (img(i) ** e)
+    for f, e in x.df:
+        r = r / (poly_image(f) ** e)
+    return r
 
 
 def diff(x: Rat, var: Atom) -> Rat:
@@ -757,8 +1011,19 @@ def diff(x: Rat, var: Atom) -> Rat:
                 acc = acc + rest * da
         return acc
 
-    n, d = Rat(x.num), Rat(x.den)
-    return (d_poly(x.num) * d - n * d_poly(x.den)) / (d * d)
+    # d(n/D) = (n' - n * sum_i e_i f_i'/f_i) / D   with D = prod f_i^e_i  (denominator stays factored)
+    n = Rat(x.num)
+    corr = Rat.const(0)
+    for i, e in x.dm:
+        da = d_atom(T.get(i))
+        if not da.is_zero():
+            corr = corr + da * Rat.const(e) / Rat.atom(T.get(i))
+    for f, e in x.df:
+        df_ = d_poly(f)
+        if not df_.is_zero():
+            corr = corr + df_ * Rat.const(e) / Rat(f)
+    inv_den = Rat(Poly.const(1), dm=x.dm, df=x.df)
+    return (d_poly(x.num) - n * corr) * inv_den
 
 
 # --------------------------------------------------------------------------
@@ -795,9 +1060,14 @@ def poly_str(p: Poly, limit=12) -> str:
 
 def rat_str(x: Rat, limit=12) -> str:
     n = poly_str(x.num, limit)
-    if x.den.is_const() and x.den.const_value() == 1:
+    if not x.dm and not x.df:
         return n
-    return "(%s)/(%s)" % (n, poly_str(x.den, limit))
+    parts = []
+    if x.dm:
+        parts.append(_mono_str(x.dm))
+    for f, e in x.df:
+        parts.append("(%s)%s" % (poly_str(f, limit), "" if e == 1 else "^%d" % e))
+    return "(%s)/(%s)" % (n, "·".join(parts))
 
 
 # --------------------------------------------------------------------------
